@@ -210,6 +210,8 @@ def classify(v):
     """D21: a line number beyond the input is expected when some declared codec's
     newline contains no LF byte (EBCDIC code pages).  D13b: TypeError from the
     preamble content setter when the file declares no encoding for it."""
+    if 'data' not in v:
+        return None
     data = bytes.fromhex(v['data'])
     if v.get('kind') == 'linenum':
         for e in encodings_in(data):
@@ -234,13 +236,62 @@ def explore(ctx, escalate=False, hint=None):
             'encoding/line_endings/format/version (catalogue), header damage, CRLF mixing, truncation, byte insert/'
             'replace/delete, line delete/dup/swap/blank, hostile JSON bodies, spliced headers; + %d random byte / token '
             'soups. compared: records + exception class + (linenum, column) model vs implementation; oracle: only '
-            'DiffXParseError, position inside the input, message prefix, DOM error family, stream closed. '
+            'DiffXParseError, position inside the input, message prefix, DOM error family, stream closed; + valid metadata nested 150 … 100000 levels through reader and object model. '
             'distinct by (outcome, #records, input)' % budget)
-    return base.explore_generic(ctx, Spec(ctx.tables), budget, rule, chunk=2000)
+    res = base.explore_generic(ctx, Spec(ctx.tables), budget, rule, chunk=2000)
+    vs = deep_probe()
+    res['evaluations'] += len(DEEP)
+    res['violations'] += vs
+    return res
+
+
+DEEP = [(d, kind, where) for d in (150, 300, 450, 600, 750, 900, 1200, 2000, 100000)
+        for kind in ('dict', 'list') for where in ('main', 'file')]
+
+
+def deep_file(depth, kind, where):
+    body = (b'{"a": ' * depth + b'1' + b'}' * depth) if kind == 'dict' else (b'{"a": ' + b'[' * depth + b']' * depth + b'}')
+    meta = b'length=%d\n' % (len(body) + 1) + body + b'\n'
+    if where == 'main':
+        return b'#diffx: encoding=utf-8, version=1.0\n#.meta: format=json, ' + meta + b'#.change:\n#..file:\n#...meta: length=3\n{}\n'
+    return b'#diffx: encoding=utf-8, version=1.0\n#.change:\n#..file:\n#...meta: format=json, ' + meta
+
+
+def deep_probe():
+    """deeply nested (valid) JSON metadata: whatever the depth, the streaming reader ends normally
+    or with a parse error, and the object model loads the file or raises a library error — never
+    RecursionError or anything else.  Kept out of the differential stream: the harness's own
+    canonicalisation is recursive."""
+    from pydiffx.errors import BaseDiffXError, DiffXParseError
+    from pydiffx.dom import DiffX
+    from pydiffx.reader import DiffXReader
+    out = []
+    for depth, kind, where in DEEP:
+        data = deep_file(depth, kind, where)
+        try:
+            for _rec in DiffXReader(io.BytesIO(data)):
+                pass
+        except DiffXParseError:
+            pass
+        except BaseException as e:   # noqa
+            out.append({'what': 'exception %s escapes the reader on metadata nested %d levels (%s, %s section)'
+                                % (type(e).__name__, depth, kind, where), 'kind': 'reader', 'deep': [depth, kind, where]})
+        try:
+            DiffX.from_bytes(data)
+        except BaseDiffXError:
+            pass
+        except BaseException as e:   # noqa
+            out.append({'what': 'DiffX.from_bytes raised %s (not a library error) on metadata nested %d levels (%s, %s section)'
+                                % (type(e).__name__, depth, kind, where), 'kind': 'dom', 'deep': [depth, kind, where]})
+    return out
 
 
 def replay(run, rp):
     v = rp.get('violation') or {}
+    if 'deep' in v:
+        vs = [x for x in deep_probe() if x['deep'] == v['deep']]
+        print('oracle:', [x['what'] for x in vs] or 'property holds on this input')
+        return 1 if vs else 0
     if 'data' in v:
         tables, _ = common.extract_tables()
         spec = Spec(tables)
